@@ -36,6 +36,9 @@ CONSTANTS Scenario,       \* which processes run (see Programs)
           ReadThroughFd,  \* design switch
           AttrsBeforePublish, \* design switch: tags etc. written through the descriptor before publication
           WithCrash,      \* TRUE: the gateway process may be killed once, at any step (C11)
+          FineSteps,      \* TRUE: PutObject's private stretch (temp file opened / body copied) is split
+                          \* into separate, effect-free steps: the interleavings then also cover code
+                          \* that is SUPPOSED to touch only process-private state
           Emit            \* TRUE: print every complete behaviour as JSON
 
 Programs ==
@@ -98,9 +101,19 @@ PathTags == IF Meta = "sidecar" THEN side.tags
 (***************************** PutObject **********************************)
 \* start -> [sidecar: put.body_done ->] link.begin: body copied to the private temp
 \* inode, attributes written through the descriptor (xattr) or BY PATH (sidecar).
+\* with FineSteps: start -> put.tmp_open -> put.body_done -> ... (no visible effect)
+PutOpenTmp(p) ==
+    /\ FineSteps /\ pc[p] = "start" /\ Op(p) = "put"
+    /\ Invoke(p) /\ Tick(p) /\ Goto(p, "tmp_open")
+    /\ UNCHANGED <<fsvars, loc>>
+PutCopyBody(p) ==
+    /\ pc[p] = "tmp_open"
+    /\ Tick(p) /\ Goto(p, IF Meta = "sidecar" THEN "body_done" ELSE "body_copied")
+    /\ UNCHANGED <<fsvars, loc, ops>>
 PutStart(p) ==
-    /\ pc[p] = "start" /\ Op(p) = "put"
-    /\ Invoke(p) /\ Tick(p)
+    /\ \/ ~FineSteps /\ pc[p] = "start" /\ Op(p) = "put" /\ Invoke(p)
+       \/ pc[p] = "body_copied" /\ UNCHANGED ops
+    /\ Tick(p)
     /\ IF Meta = "sidecar" THEN Goto(p, "body_done") ELSE Goto(p, "link_begin")
     /\ itags' = IF AttrsBeforePublish /\ Programs[p].tag THEN [itags EXCEPT ![p] = Val(p)] ELSE itags
     /\ pdir' = IF Meta = "sidecar" THEN pdir ELSE TRUE     \* MkdirAll(parent) after the body copy
@@ -243,7 +256,7 @@ DelReturn(p) ==
     /\ Return(p, [NoOp EXCEPT !.res = "ok"]) /\ Goto(p, "done") /\ Tick(p)
     /\ UNCHANGED <<name, itags, side, loc>>
 
-Step(p) == \/ PutStart(p) \/ PutSideAttrs(p) \/ PutUnlink(p) \/ PutLink(p) \/ PutRelink(p) \/ PutPost(p) \/ PutReturn(p)
+Step(p) == \/ PutOpenTmp(p) \/ PutCopyBody(p) \/ PutStart(p) \/ PutSideAttrs(p) \/ PutUnlink(p) \/ PutLink(p) \/ PutRelink(p) \/ PutPost(p) \/ PutReturn(p)
            \/ GetStart(p) \/ GetStat(p) \/ GetAttrs(p) \/ GetOpen(p) \/ GetReturn(p)
            \/ DelStart(p) \/ DelStat(p) \/ DelRemove(p) \/ DelAttrs(p) \/ DelReturn(p)
 
@@ -267,10 +280,14 @@ AllDone == \A p \in Proc : pc[p] = "done"
 
 \* the client-visible history in LinKey's vocabulary
 \* (a GET in flight cannot report tags, so they are hidden for the concurrent reads)
+\* an object that is served without its ETag / metadata attribute is a mixture too
+Attr(res, a) == IF res = "ok" /\ a = "none" THEN "missing" ELSE a
 Concurrent == {[id |-> p, op |-> Op(p), arg |-> IF Op(p) = "put" THEN Val(p) ELSE "none",
                 res |-> ops[p].res, inv |-> ops[p].inv, ret |-> ops[p].ret,
-                body |-> ops[p].body, len |-> ops[p].len, etag |-> ops[p].etag,
-                meta |-> ops[p].meta, tags |-> "none", full |-> ops[p].full] : p \in Proc}
+                body |-> ops[p].body, len |-> ops[p].len,
+                etag |-> IF Op(p) = "get" THEN Attr(ops[p].res, ops[p].etag) ELSE "none",
+                meta |-> IF Op(p) = "get" THEN Attr(ops[p].res, ops[p].meta) ELSE "none",
+                tags |-> "none", full |-> ops[p].full] : p \in Proc}
 InitVal == IF InitPresent THEN "w0" ELSE Absent
 
 \* the key's final state as an API reader sees it (data, etag, meta, tags)
@@ -279,7 +296,9 @@ Final == [name |-> IF name = "none" THEN "none" ELSE IVal(name), etag |-> PathEt
 FinalRead == [id |-> "final", op |-> "get", arg |-> "none",
               res |-> IF Final.name = "none" THEN "absent" ELSE "ok",
               inv |-> clk + 1, ret |-> clk + 2,
-              body |-> Final.name, len |-> Final.name, etag |-> Final.etag, meta |-> Final.meta,
+              body |-> Final.name, len |-> Final.name,
+              etag |-> Attr(IF Final.name = "none" THEN "absent" ELSE "ok", Final.etag),
+              meta |-> Attr(IF Final.name = "none" THEN "absent" ELSE "ok", Final.meta),
               tags |-> IF Tagged /\ Final.name # "none" /\ Final.tags = "none" THEN "missing" ELSE Final.tags,
               full |-> TRUE]
 History == Concurrent \cup {FinalRead}
